@@ -126,8 +126,8 @@ BOUNDED = {
         where="openapi_python_client/__init__.py",
         statement="generate() returns its diagnostics -- it does not raise -- for documents with non-string examples, defaults of "
                   "other (also unhashable) types, empty / numeric-looking names, self-references, deep nesting, media types with "
-                  "parameters, missing optional parts",
-        bound="10 documents"),
+                  "parameters, missing optional parts, long / unclosed path placeholders with converter suffixes (30 s each: no hang)",
+        bound="11 documents"),
     "equivalent_docs": dict(
         unit="generate() on pairs of documents that say the same thing in different notation", where="openapi_python_client/",
         statement="3.0 nullable vs 3.1 type list / null member, single-member allOf/oneOf/anyOf wrapper vs bare $ref, JSON vs "
